@@ -111,6 +111,41 @@ Definition table : list entry := [
        [refuted "site_generatePolicies_refuted" "F14" (@site_generatePolicies_refuted)];
      mkAlt CAppendSorted "groupMaps" ["groupVariables"] ["sort.Strings(groupVariables)"]
        [det "site_generatePolicies_fixed_deterministic" (@site_generatePolicies_fixed_deterministic)]];
+  (* ---- internal/k8s/configuration.go: the Configuration that arbitrates hosts and hands the resources, in order,
+     to the Configurator.  Every other map of the file is walked through a getSorted...Keys helper. *)
+  mkEntry "Configuration.buildListenerHostsAndTSConfigurations" 0
+    [mkAlt COther "c.transportServers" ["newListenerHosts"; "newTSConfigs"] []
+       [detif "site_elect_deterministic" "TransportServerConfiguration.Wins is a strict total order on the claimants of a listener/host (C02)" (@site_elect_deterministic);
+        det "site_mapwrite_samekey_deterministic" (@site_mapwrite_samekey_deterministic)]];
+  mkEntry "Configuration.GetResourcesWithFilter" 0
+    [mkAlt CMapWrite "c.hosts" ["resources"] []
+       [detif "site_mapwrite_deterministic" "entries written under one key-with-kind are one and the same resource (a resource holding several hosts)" (@site_mapwrite_deterministic)]];
+  mkEntry "Configuration.GetResourcesWithFilter" 1
+    [mkAlt CMapWrite "c.listenerHosts" ["resources"] []
+       [detif "site_mapwrite_deterministic" "entries written under one key-with-kind are one and the same resource" (@site_mapwrite_deterministic)]];
+  mkEntry "updateActiveHostsForIngresses" 0
+    [mkAlt CMapWrite "resources" ["ingConfig.ValidHosts"] [] [det "site_mapwrite_samekey_deterministic" (@site_mapwrite_samekey_deterministic)]];
+  mkEntry "Configuration.addProblemsForTSConfigsWithoutActiveListener" 0
+    [mkAlt CMapWrite "tsConfigs" ["problems"] [] [det "site_mapwrite_samekey_deterministic" (@site_mapwrite_samekey_deterministic)]];
+  mkEntry "Configuration.addProblemsForResourcesWithoutActiveHost" 0
+    [mkAlt COther "resources" ["problems"] []
+       [detif "site_mapwrite_deterministic" "distinct resources have distinct keys-with-kind" (@site_mapwrite_deterministic)]];
+  mkEntry "Configuration.addProblemsForResourcesWithoutActiveHost" 1
+    [mkAlt COther "impl.ValidHosts" [] [] [det "site_exists_deterministic" (@site_exists_deterministic)]];
+  mkEntry "Configuration.addWarningsForVirtualServersWithMissConfiguredListeners" 0
+    [mkAlt COther "resources" [] []
+       [detif "site_mapwrite_samekey_deterministic" "at most one warning per VirtualServer, appended to the resource that holds its host" (@site_mapwrite_samekey_deterministic)]];
+  mkEntry "Configuration.GetTransportServerMetrics" 0 [mkAlt COther "c.hosts" [] [] [det "site_count_deterministic" (@site_count_deterministic)]];
+  mkEntry "Configuration.GetTransportServerMetrics" 1 [mkAlt COther "c.listenerHosts" [] [] [det "site_count_deterministic" (@site_count_deterministic)]];
+  mkEntry "getSortedIngressKeys" 0 [mkAlt CAppendSorted "m" ["keys"] ["sort.Strings(keys)"] [det "site_sorted_keys_deterministic" (@site_sorted_keys_deterministic)]];
+  mkEntry "getSortedVirtualServerKeys" 0 [mkAlt CAppendSorted "m" ["keys"] ["sort.Strings(keys)"] [det "site_sorted_keys_deterministic" (@site_sorted_keys_deterministic)]];
+  mkEntry "getSortedVirtualServerRouteKeys" 0 [mkAlt CAppendSorted "m" ["keys"] ["sort.Strings(keys)"] [det "site_sorted_keys_deterministic" (@site_sorted_keys_deterministic)]];
+  mkEntry "getSortedProblemKeys" 0 [mkAlt CAppendSorted "m" ["keys"] ["sort.Strings(keys)"] [det "site_sorted_keys_deterministic" (@site_sorted_keys_deterministic)]];
+  mkEntry "getSortedResourceKeys" 0 [mkAlt CAppendSorted "m" ["keys"] ["sort.Strings(keys)"] [det "site_sorted_keys_deterministic" (@site_sorted_keys_deterministic)]];
+  mkEntry "getSortedTransportServerKeys" 0 [mkAlt CAppendSorted "m" ["keys"] ["sort.Strings(keys)"] [det "site_sorted_keys_deterministic" (@site_sorted_keys_deterministic)]];
+  mkEntry "getSortedListenerHostKeys" 0
+    [mkAlt CAppendSorted "m" ["keys"] ["sort.Slice(keys, func(i, j int) bool { return keys[i].String() < keys[j].String() })"]
+       [detif "site_sorted_keys_by_deterministic" "listenerHostKey.String() tells distinct listener/host pairs apart" (@site_sorted_keys_by_deterministic)]];
   mkEntry "Warnings.Add" 0
     [mkAlt CMapWrite "warnings" ["w"] [] [det "site_mapwrite_samekey_deterministic" (@site_mapwrite_samekey_deterministic)]]
 ].
